@@ -25,6 +25,11 @@ CHECKS = {
                   'verdict <=> all bins compatible, oracles()/p-value decision/test_pvalue() == per-bin formula, plus relational twins '
                   '(symmetry, rescaling, monotonicity) as two executions inside one query. Bounded by shape/number of datasets.',
              design='DESIGN.md section 4 C05'),
+ 'C06': dict(technique='bounded symbolic execution of the real Bonferroni/Holm-Bonferroni code (symrun + z3 LRA; QF_NRA with law stubs for Student-based jobs); argsort as a solver-chosen sorting permutation',
+             text='For every p-value array (reals in [0,1] or NaN, ties included) of the listed shapes and every alpha, on every path and for every '
+                  'tie-breaking argsort may choose, z3 decides flags, levels, counts, verdicts, the Bonferroni=>Holm implication, '
+                  'permutation/reshape invariance and Student-pass => both pass. Bounded by m <= 3 (quick) / 4 (thorough) bins.',
+             design='DESIGN.md section 4 C06'),
 }
 
 NOT_YET = {}
